@@ -12,8 +12,9 @@
                            close the consumer channels - neither does the code)
    process 3+i   consumer: receives on channel 2+i and records each message (emit), for ever
 
-   Every channel has an arbitrary capacity >= 1 (Go's unbuffered channel is the capacity-1 case in
-   which each send is immediately followed by its receive).
+   Every channel has an arbitrary capacity >= 1 and, independently, may be UNBUFFERED (sync ch = true,
+   as the byte channel, the message channel and rtcmfilter's consumer channels are in the Go code):
+   after a send on such a channel the sender waits until the value has been taken (Net.OAwait).
 
    Result: there is a bound n and ONE final configuration f such that every execution from the
    initial configuration, under every schedule, has at most n steps and can always be extended
@@ -112,6 +113,17 @@ Section StepLemmas.
     replace (p <? length (procs c)) with true by (symmetry; apply Nat.ltb_lt; exact Hp). cbn [negb].
     rewrite Hprog. reflexivity.
   Qed.
+  Lemma pstep_await (c : config) p ch k' :
+    p < length (procs c) -> prog (nth p (procs c) dSt) = OAwait _ _ _ ch k' ->
+    sender ch = p -> ch < length (chans c) -> buf (nth ch (chans c) (dchan V)) = [] ->
+    pstep c p = Some {| procs := upd (procs c) p k'; chans := chans c; outs := outs c |}.
+  Proof.
+    intros Hp Hprog Hs Hch Hb. unfold Net.pstep.
+    replace (p <? length (procs c)) with true by (symmetry; apply Nat.ltb_lt; exact Hp). cbn [negb].
+    rewrite Hprog. rewrite Hs, Nat.eqb_refl.
+    replace (ch <? length (chans c)) with true by (symmetry; apply Nat.ltb_lt; exact Hch).
+    cbn [andb]. rewrite Hb. reflexivity.
+  Qed.
 End StepLemmas.
 
 Section Pipe.
@@ -120,6 +132,7 @@ Section Pipe.
   Variable fflush : FS -> list M.
   Variable k : nat.               (* number of consumer entries *)
   Variable live : nat -> bool.    (* entry i is non-nil *)
+  Variable sync : nat -> bool.    (* channel ch is unbuffered in the Go code: a send completes only when the value has been taken *)
 
   (* sequential framing *)
   Fixpoint seqrun (s : FS) (bs : list B) : list M :=
@@ -134,7 +147,8 @@ Section Pipe.
   | RdS (bs : list B) | RdDone
   | FrRecv (s : FS) | FrSend (next : st) (m : M) (r : list M) | FrClose | FrDone
   | FoRecv | FoSend (m : M) (i : nat) (r : list nat) | FoDone
-  | SkRecv (i : nat) | SkEmit (i : nat) (m : M) | SkDone.
+  | SkRecv (i : nat) | SkEmit (i : nat) (m : M) | SkDone
+  | Aw (ch : nat) (next : st).     (* after a send on an unbuffered channel: wait until the value has been taken *)
 
   Definition targets : list nat := filter live (seq 0 k).
   Definition fr_after (next : st) (ms : list M) : st :=
@@ -142,28 +156,31 @@ Section Pipe.
   Definition fo_after (m : M) (ts : list nat) : st :=
     match ts with [] => FoRecv | i :: r => FoSend m i r end.
 
+  Definition aw (ch : nat) (next : st) : st := if sync ch then Aw ch next else next.
+
   Definition prog (s : st) : op st val M :=
     match s with
     | RdS [] => OClose _ _ _ 0 RdDone
-    | RdS (b :: r) => OSend _ _ _ 0 (VB b) (RdS r)
+    | RdS (b :: r) => OSend _ _ _ 0 (VB b) (aw 0 (RdS r))
     | RdDone => OHalt _ _ _
     | FrRecv s => ORecv _ _ _ 0 (fun o => match o with
                                           | Some (VB b) => fr_after (FrRecv (fst (fstep s b))) (snd (fstep s b))
                                           | Some (VM _) => FrDone
                                           | None => fr_after FrClose (fflush s)
                                           end)
-    | FrSend next m r => OSend _ _ _ 1 (VM m) (fr_after next r)
+    | FrSend next m r => OSend _ _ _ 1 (VM m) (aw 1 (fr_after next r))
     | FrClose => OClose _ _ _ 1 FrDone
     | FrDone => OHalt _ _ _
     | FoRecv => ORecv _ _ _ 1 (fun o => match o with
                                         | Some (VM m) => fo_after m targets
                                         | _ => FoDone
                                         end)
-    | FoSend m i r => OSend _ _ _ (2 + i) (VM m) (fo_after m r)
+    | FoSend m i r => OSend _ _ _ (2 + i) (VM m) (aw (2 + i) (fo_after m r))
     | FoDone => OHalt _ _ _
     | SkRecv i => ORecv _ _ _ (2 + i) (fun o => match o with Some (VM m) => SkEmit i m | _ => SkDone end)
     | SkEmit i m => OEmit _ _ _ m (SkRecv i)
     | SkDone => OHalt _ _ _
+    | Aw ch next => OAwait _ _ _ ch next
     end.
 
   Definition sender (ch : nat) : nat := match ch with 0 => 0 | 1 => 1 | _ => 2 end.
@@ -208,11 +225,38 @@ Section Pipe.
     rewrite map_nth. rewrite seq_nth by exact H. reflexivity.
   Qed.
 
+  (* after a send on an unbuffered channel the sender waits until the value has been taken; once the
+     channel is empty again it continues (one step), on a buffered channel it has continued already *)
+  Lemma settle0 next f o sk c1 cs so cp cl :
+    exists n, steps n (mkg (aw 0 next) f o sk {| buf := []; cap := cp; closed := cl |} c1 cs so)
+                      (mkg next f o sk {| buf := []; cap := cp; closed := cl |} c1 cs so).
+  Proof.
+    unfold aw. destruct (sync 0); [|exists 0; constructor].
+    exists 1. apply (step1 _ 0). unfold mkg. erewrite pstep_await with (ch := 0) (k' := next);
+      cbn [procs chans outs length nth sender buf]; try reflexivity; lia.
+  Qed.
+  Lemma settle1 r next o sk c0 cs so cp cl :
+    exists n, steps n (mkg r (aw 1 next) o sk c0 {| buf := []; cap := cp; closed := cl |} cs so)
+                      (mkg r next o sk c0 {| buf := []; cap := cp; closed := cl |} cs so).
+  Proof.
+    unfold aw. destruct (sync 1); [|exists 0; constructor].
+    exists 1. apply (step1 _ 1). unfold mkg. erewrite pstep_await with (ch := 1) (k' := next);
+      cbn [procs chans outs length nth sender buf]; try reflexivity; lia.
+  Qed.
+  Lemma settle2 r f next sk c0 c1 cs so i :
+    i < length cs -> buf (nth i cs (dchan val)) = [] ->
+    exists n, steps n (mkg r f (aw (2 + i) next) sk c0 c1 cs so) (mkg r f next sk c0 c1 cs so).
+  Proof.
+    intros Hi Hb. unfold aw. destruct (sync (2 + i)); [|exists 0; constructor].
+    exists 1. apply (step1 _ 2). unfold mkg. erewrite pstep_await with (ch := 2 + i) (k' := next);
+      cbn [procs chans outs length nth plus sender]; try reflexivity; try lia. exact Hb.
+  Qed.
+
   (* one message to one consumer: fan-out sends, the consumer receives and records it *)
   Lemma fan_one r f c0 c1 caps so m i ts :
     length caps = k -> Forall (fun c => 1 <= c) caps -> length so = k -> i < k ->
-    steps 3 (mk r f (FoSend m i ts) c0 c1 caps so)
-            (mk r f (fo_after m ts) c0 c1 caps (upd so i (nth i so [] ++ [m]))).
+    exists n, steps n (mk r f (FoSend m i ts) c0 c1 caps so)
+                      (mk r f (fo_after m ts) c0 c1 caps (upd so i (nth i so [] ++ [m]))).
   Proof.
     intros Hl Hc Hs Hi.
     assert (Hcap : 1 <= nth i caps 1) by (rewrite Forall_forall in Hc; apply Hc, nth_In; lia).
@@ -220,17 +264,17 @@ Section Pipe.
     { rewrite nth_indep with (d' := ech 1) by (rewrite map_length; lia). apply (map_nth ech). }
     (* 1: the fan-out sends *)
     assert (S1 : pstep (mk r f (FoSend m i ts) c0 c1 caps so) 2 =
-                 Some (mkg r f (fo_after m ts) sinks c0 c1
+                 Some (mkg r f (aw (2 + i) (fo_after m ts)) sinks c0 c1
                            (upd (map ech caps) i {| buf := [VM m]; cap := nth i caps 1; closed := false |}) so)).
-    { unfold mk, mkg. erewrite pstep_send with (ch := 2 + i) (v := VM m) (k' := fo_after m ts); cbn [procs chans outs length nth plus sender];
+    { unfold mk, mkg. erewrite pstep_send with (ch := 2 + i) (v := VM m) (k' := aw (2 + i) (fo_after m ts)); cbn [procs chans outs length nth plus sender];
         [|lia|reflexivity|reflexivity|rewrite map_length; lia|rewrite Hn; reflexivity|rewrite Hn; cbn; lia].
       rewrite Hn. reflexivity. }
     (* 2: the consumer receives *)
     set (cs1 := upd (map ech caps) i {| buf := [VM m]; cap := nth i caps 1; closed := false |}) in *.
     assert (Hn1 : nth i cs1 (dchan val) = {| buf := [VM m]; cap := nth i caps 1; closed := false |})
       by (unfold cs1; apply nth_upd_eq; rewrite map_length; lia).
-    assert (S2 : pstep (mkg r f (fo_after m ts) sinks c0 c1 cs1 so) (3 + i) =
-                 Some (mkg r f (fo_after m ts) (upd sinks i (SkEmit i m)) c0 c1 (map ech caps) so)).
+    assert (S2 : pstep (mkg r f (aw (2 + i) (fo_after m ts)) sinks c0 c1 cs1 so) (3 + i) =
+                 Some (mkg r f (aw (2 + i) (fo_after m ts)) (upd sinks i (SkEmit i m)) c0 c1 (map ech caps) so)).
     { unfold mkg. erewrite pstep_recv_some with (ch := 2 + i) (v := VM m) (rest := []);
         cbn [procs chans outs length nth plus receiver];
         [|rewrite sinks_length; lia|rewrite sinks_nth by exact Hi; reflexivity|reflexivity
@@ -238,6 +282,9 @@ Section Pipe.
       cbn [upd]. rewrite Hn1. cbn [cap closed]. unfold cs1. rewrite upd_upd.
       replace {| buf := []; cap := nth i caps 1; closed := false |} with (nth i (map ech caps) (dchan val)) by exact Hn.
       rewrite upd_nth_id by (rewrite map_length; lia). reflexivity. }
+    (* 2': the value has been taken: the fan-out continues *)
+    destruct (settle2 r f (fo_after m ts) (upd sinks i (SkEmit i m)) c0 c1 (map ech caps) so i) as [n2 Hn2];
+      [rewrite map_length; lia|rewrite Hn; reflexivity|].
     (* 3: the consumer records the message *)
     assert (S3 : pstep (mkg r f (fo_after m ts) (upd sinks i (SkEmit i m)) c0 c1 (map ech caps) so) (3 + i) =
                  Some (mk r f (fo_after m ts) c0 c1 caps (upd so i (nth i so [] ++ [m])))).
@@ -246,8 +293,10 @@ Section Pipe.
         [|rewrite upd_length, sinks_length; lia|rewrite nth_upd_eq by (rewrite sinks_length; lia); reflexivity].
       cbn [upd]. rewrite upd_upd. rewrite <- (sinks_nth i SkDone Hi) at 1.
       rewrite upd_nth_id by (rewrite sinks_length; lia). reflexivity. }
-    apply (steps_trans 1 2 _ _ _ (step1 _ _ _ S1)).
-    apply (steps_trans 1 1 _ _ _ (step1 _ _ _ S2)).
+    exists (1 + (1 + (n2 + 1))).
+    eapply steps_trans; [exact (step1 _ _ _ S1)|].
+    eapply steps_trans; [exact (step1 _ _ _ S2)|].
+    eapply steps_trans; [exact Hn2|].
     exact (step1 _ _ _ S3).
   Qed.
 
@@ -260,14 +309,14 @@ Section Pipe.
 
   Lemma fan_all r f c0 c1 caps m ts : forall so,
     length caps = k -> Forall (fun c => 1 <= c) caps -> length so = k -> Forall (fun i => i < k) ts ->
-    steps (3 * length ts) (mk r f (fo_after m ts) c0 c1 caps so) (mk r f FoRecv c0 c1 caps (deliver so ts m)).
+    exists n, steps n (mk r f (fo_after m ts) c0 c1 caps so) (mk r f FoRecv c0 c1 caps (deliver so ts m)).
   Proof.
     induction ts as [|i ts IH]; intros so Hl Hc Hs Ht.
-    - cbn. constructor.
+    - exists 0. cbn. constructor.
     - inversion Ht as [|? ? Hi Ht']; subst.
-      replace (3 * length (i :: ts)) with (3 + 3 * length ts) by (cbn [length]; lia).
-      eapply steps_trans; [apply fan_one; assumption|].
-      cbn [deliver fold_left]. apply IH; try assumption. rewrite upd_length. exact Hs.
+      destruct (fan_one r f c0 c1 caps so m i ts Hl Hc Hs Hi) as [n1 Hn1].
+      destruct (IH (upd so i (nth i so [] ++ [m])) Hl Hc) as [n2 Hn2]; [rewrite upd_length; exact Hs|exact Ht'|].
+      exists (n1 + n2). eapply steps_trans; [exact Hn1|]. cbn [deliver fold_left]. exact Hn2.
   Qed.
 
   Lemma targets_lt : Forall (fun i => i < k) targets.
@@ -293,17 +342,20 @@ Section Pipe.
     induction ms as [|m ms IH]; intros so H1 Hl Hc Hs.
     - exists 0. cbn. constructor.
     - destruct (IH (deliver so targets m) H1 Hl Hc) as [n Hn]; [rewrite deliver_length; exact Hs|].
-      exists (1 + (1 + (3 * length targets + n))).
       assert (S1 : pstep (mk r (fr_after next (m :: ms)) FoRecv c0 (ech cap1) caps so) 1 =
-                   Some (mk r (fr_after next ms) FoRecv c0 {| buf := [VM m]; cap := cap1; closed := false |} caps so)).
-      { unfold pstep, mk, mkg. cbn -[Nat.ltb].
+                   Some (mk r (aw 1 (fr_after next ms)) FoRecv c0 {| buf := [VM m]; cap := cap1; closed := false |} caps so)).
+      { unfold pstep, mk, mkg. cbn -[Nat.ltb aw].
         replace (0 <? cap1) with true by (symmetry; apply Nat.ltb_lt; lia). reflexivity. }
-      assert (S2 : pstep (mk r (fr_after next ms) FoRecv c0 {| buf := [VM m]; cap := cap1; closed := false |} caps so) 2 =
-                   Some (mk r (fr_after next ms) (fo_after m targets) c0 (ech cap1) caps so)).
-      { unfold pstep, mk, mkg. cbn. reflexivity. }
+      assert (S2 : pstep (mk r (aw 1 (fr_after next ms)) FoRecv c0 {| buf := [VM m]; cap := cap1; closed := false |} caps so) 2 =
+                   Some (mk r (aw 1 (fr_after next ms)) (fo_after m targets) c0 (ech cap1) caps so)).
+      { unfold pstep, mk, mkg. cbn -[aw]. reflexivity. }
+      destruct (settle1 r (fr_after next ms) (fo_after m targets) sinks c0 (map ech caps) so cap1 false) as [n1 Hn1].
+      destruct (fan_all r (fr_after next ms) c0 (ech cap1) caps m targets so Hl Hc Hs targets_lt) as [n2 Hn2].
+      exists (1 + (1 + (n1 + (n2 + n)))).
       eapply steps_trans; [exact (step1 _ _ _ S1)|].
       eapply steps_trans; [exact (step1 _ _ _ S2)|].
-      eapply steps_trans; [apply fan_all; try assumption; apply targets_lt|].
+      eapply steps_trans; [exact Hn1|].
+      eapply steps_trans; [exact Hn2|].
       exact Hn.
   Qed.
 
@@ -342,16 +394,18 @@ Section Pipe.
       destruct (frame_send (RdS bs) (FrRecv (fst (fstep s b))) cap1 caps (snd (fstep s b)) (ech cap0) so H1 Hl Hc Hs) as [n Hn].
       destruct (IH (fst (fstep s b)) (deliver_all so (snd (fstep s b))) H0 H1 Hl Hc) as [n2 Hn2];
         [rewrite deliver_all_length; exact Hs|].
-      exists (1 + (1 + (n + n2))).
       assert (S1 : pstep (mk (RdS (b :: bs)) (FrRecv s) FoRecv (ech cap0) (ech cap1) caps so) 0 =
-                   Some (mk (RdS bs) (FrRecv s) FoRecv {| buf := [VB b]; cap := cap0; closed := false |} (ech cap1) caps so)).
-      { unfold pstep, mk, mkg. cbn -[Nat.ltb].
+                   Some (mk (aw 0 (RdS bs)) (FrRecv s) FoRecv {| buf := [VB b]; cap := cap0; closed := false |} (ech cap1) caps so)).
+      { unfold pstep, mk, mkg. cbn -[Nat.ltb aw].
         replace (0 <? cap0) with true by (symmetry; apply Nat.ltb_lt; lia). reflexivity. }
-      assert (S2 : pstep (mk (RdS bs) (FrRecv s) FoRecv {| buf := [VB b]; cap := cap0; closed := false |} (ech cap1) caps so) 1 =
-                   Some (mk (RdS bs) (fr_after (FrRecv (fst (fstep s b))) (snd (fstep s b))) FoRecv (ech cap0) (ech cap1) caps so)).
-      { unfold pstep, mk, mkg. cbn. reflexivity. }
+      assert (S2 : pstep (mk (aw 0 (RdS bs)) (FrRecv s) FoRecv {| buf := [VB b]; cap := cap0; closed := false |} (ech cap1) caps so) 1 =
+                   Some (mk (aw 0 (RdS bs)) (fr_after (FrRecv (fst (fstep s b))) (snd (fstep s b))) FoRecv (ech cap0) (ech cap1) caps so)).
+      { unfold pstep, mk, mkg. cbn -[aw]. reflexivity. }
+      destruct (settle0 (RdS bs) (fr_after (FrRecv (fst (fstep s b))) (snd (fstep s b))) FoRecv sinks (ech cap1) (map ech caps) so cap0 false) as [n1 Hn1].
+      exists (1 + (1 + (n1 + (n + n2)))).
       eapply steps_trans; [exact (step1 _ _ _ S1)|].
       eapply steps_trans; [exact (step1 _ _ _ S2)|].
+      eapply steps_trans; [exact Hn1|].
       eapply steps_trans; [exact Hn|exact Hn2].
   Qed.
 
